@@ -120,10 +120,10 @@ def run_check(cid, tier, seed, jobs=None, only=None, verbose=False):
     finally:
         shutil.rmtree(scratch, ignore_errors=True)
     records.sort(key=lambda r: r["index"])
-    return aggregate(cid, mod, tier, seed, records, lost, time.time() - t0, verbose)
+    return aggregate(cid, mod, tier, seed, records, lost, time.time() - t0, verbose, partial=only is not None)
 
 
-def aggregate(cid, mod, tier, seed, records, lost, wall, verbose=False):
+def aggregate(cid, mod, tier, seed, records, lost, wall, verbose=False, partial=False):
     known = load_findings()
     open_findings = {f["id"]: f for f in known.get("findings", []) if f.get("status") == "open" and f["property"] == cid}
     verdicts = {"held": 0, "violated": 0, "known": 0, "inconclusive": 0}
@@ -232,6 +232,10 @@ def aggregate(cid, mod, tier, seed, records, lost, wall, verbose=False):
             evidence["coverage"]["extra_error"] = repr(exc)
     os.makedirs(os.path.join(ROOT, "evidence"), exist_ok=True)
     evpath = os.path.join(ROOT, "evidence", "%s.json" % cid)
+    if partial:
+        # a run restricted with --only is a debugging aid: it must not replace the evidence
+        os.makedirs(os.path.join(ROOT, "evidence", ".partial"), exist_ok=True)
+        evpath = os.path.join(ROOT, "evidence", ".partial", "%s.json" % cid)
     if os.environ.get("VF_EVIDENCE_DIR"):
         os.makedirs(os.environ["VF_EVIDENCE_DIR"], exist_ok=True)
         evpath = os.path.join(os.environ["VF_EVIDENCE_DIR"], "%s.json" % cid)
